@@ -560,6 +560,21 @@ def plan_c05(doc, man, args):
     a["import"] = False
     out += plan_defaults(doc, man, a)
     out += plan_ops(doc, man, a)
+    # rejection probes: a wrong value for every const property of every component model
+    comps = comps_of(doc)
+    for name, schema in comps.items():
+        ent = (man.get("refs") or {}).get(f"/components/schemas/{name}")
+        if not ent or ent["kind"] != "ModelProperty" or ent["cls"] not in man["models"] or not isinstance(schema.get("properties"), dict):
+            continue
+        try:
+            base = docs.instance(schema, comps, docs.Tok(random.Random(7)), "min")
+        except (docs.Bottomless, RecursionError):
+            continue
+        if not isinstance(base, dict):
+            continue
+        for pn, ps in schema["properties"].items():
+            if isinstance(ps, dict) and "const" in ps and isinstance(ps["const"], str):
+                out.append({"a": "roundtrip", "cls": ent["cls"], "value": dict(base, **{pn: "WRONG-" + ps["const"]}), "x": {"expect_reject": True, "prop": pn}})
     return out
 
 
@@ -734,6 +749,7 @@ def plan_c11(doc, man, args):
     a["import"] = True
     out = plan_models(doc, man, a)
     a["import"] = False
+    out += [x for x in plan_import_info(doc, man, a) if x["a"] != "import_all"]
     out += [x for x in plan_ops(doc, man, a) if x["a"] == "call"]
     # encoder acceptance of every value admitted by a parameter annotation
     for ep in man["endpoints"]:
@@ -773,4 +789,14 @@ def plan_import(doc, man, args):
     return [{"a": "import_all"}]
 
 
-PLANS = {"c14params": plan_c14params, "c13rand": plan_c13rand, "models": plan_models, "ops": plan_ops, "import": plan_import, "models_given": plan_models_given, "defaults": plan_defaults, "c05": plan_c05, "c14": plan_c14, "c13": plan_c13, "c10": plan_c10, "c15": plan_c15, "c18_ops": plan_c18_ops, "c11": plan_c11}
+def plan_import_info(doc, man, args):
+    """import_all + the declared fields of every model and the signatures of every endpoint (C11: defaults conform to annotations)."""
+    acts = [{"a": "import_all"}]
+    for cls in sorted((man.get("models") or {})):
+        acts.append({"a": "model_info", "cls": cls, "x": {}})
+    for ep in man.get("endpoints") or []:
+        acts.append({"a": "endpoint_info", "module": f"api.{ep['tag']}.{ep['module']}", "x": {"ep": ep["name"]}})
+    return acts
+
+
+PLANS = {"import_info": plan_import_info, "c14params": plan_c14params, "c13rand": plan_c13rand, "models": plan_models, "ops": plan_ops, "import": plan_import, "models_given": plan_models_given, "defaults": plan_defaults, "c05": plan_c05, "c14": plan_c14, "c13": plan_c13, "c10": plan_c10, "c15": plan_c15, "c18_ops": plan_c18_ops, "c11": plan_c11}
